@@ -28,7 +28,11 @@ ACTION_SPAN_FIXED = False
 # /repo 69c4b9b (pos_prod_end.get_or_insert(i) at an action's brace): the production span ends with the last item
 # also when an action follows.  False = the pinned variant of the mirror and of the oracle (span up to the brace).
 PROD_SPAN_FIXED = True
-MODEL_FLAGS = (" fc" if COMMENT_FIXED else "") + (" fa" if ACTION_SPAN_FIXED else "") + (" fp" if PROD_SPAN_FIXED else "")
+# /repo 4ff022d (GrammarAST::unused_symbols): the %prec token of every reachable production counts as used.  False = the
+# pinned variant of the mirror (YpModel.seen_prec) and of the warnings oracle (a precedence pseudo-token is reported).
+PREC_USED_FIXED = True
+MODEL_FLAGS = (" fc" if COMMENT_FIXED else "") + (" fa" if ACTION_SPAN_FIXED else "") + (" fp" if PROD_SPAN_FIXED else "") + \
+    (" fu" if PREC_USED_FIXED else "")
 
 CORPUS = [
     ("O", "%%\nA: /* a\n// b */ 'a';"),                       # DESIGN §9 comment defect
@@ -55,6 +59,10 @@ CORPUS = [
     # the witnesses of the two known findings (C10/YpRoundFindings.v)
     ("G", "%%\nS -> String:\n    'a' { \"{\".to_string() }\n  | 'b' { \"}\".to_string() }\n  ;\n"), ("G", "%%\nS -> char: 'a' { '}' } ;\n"),
     ("O", "%actiontype u32  \n%%\nS: 'a' { 1 };"), ("G", "%%\nS -> u32 // note: the value\n : 'a' { 1 };"),
+    # precedence pseudo-tokens (/repo 4ff022d; C10/YpPrecUsed.v): the unary-minus grammar, a %prec token of an unreachable rule
+    ("O", "%start E\n%left '-'\n%left UMINUS\n%%\nE: E '-' E | '-' E %prec UMINUS | 'n';\n"),
+    ("O", "%start E\n%left UM\n%expect-unused X\n%%\nE: 'n';\nX: 'n' %prec UM;\n"),
+    ("O", "%token UMINUS\n%%\nE: '-' E %prec UMINUS | 'n' | D;\nD: ;\nX: 'n' %prec UM | X %prec UMINUS;\n"),
 ]
 
 
@@ -181,6 +189,58 @@ def run_unknown_epp(ctx, rng, exe, mexe, clean):
             report_tie(ctx, kind, text, line, a, m)
     ctx.oblige(n_bad == 0, "of several unknown %epp keys the first declared is reported")
     ctx.coverage["unknown_epp_cases"] = len(cases)
+    return n_tie
+
+
+def run_prec_pseudo(ctx, rng, exe, mexe):
+    """/repo 4ff022d: precedence pseudo-tokens.  Grammars of gen/c10ypgen.prec_pseudo_grammar (pseudo-tokens declared by a
+    precedence level alone or by a level and %token; named by %prec of reachable productions, of unreachable ones
+    only, or nowhere) under three layouts each: the warnings of the implementation must be exactly the ones computed from first
+    principles on the printed grammar (unreachable rules, then tokens no reachable production uses as a symbol or as its %prec
+    token), the AST must be the printed one, and the whole transcript (warnings included) equals the mirror's."""
+    cases = []
+    for _ in range(ctx.n(150, 1500)):
+        ag, info = G.prec_pseudo_grammar(rng)
+        for style in rng.sample(G.Layout.STYLES, 3):
+            lay = G.Layout(rng, style)
+            lay.neutral = True
+            text, exp = G.render(ag, lay)
+            cases.append((ag["kind"], text, exp, info, style))
+    lines = ["%s %s" % (c[0], hexs(c[1])) for c in cases]
+    impl = core.run_lines([exe], lines)
+    model = core.run_lines([mexe], [l + MODEL_FLAGS for l in lines])
+    n_bad = n_tie = n_reach = n_unreach = n_sep = 0
+    for (kind, text, exp, info, style), line, a, m in zip(cases, lines, impl, model):
+        ctx.case("W " + line, True, {"kind": kind, "layout": style, "text": text[:400]})
+        want = G.expected_warnings(exp, PREC_USED_FIXED)
+        other = G.expected_warnings(exp, not PREC_USED_FIXED)
+        n_sep += want != other
+        n_reach += any(w in ("reach", "both") for w in info["where"].values())
+        n_unreach += any(w == "unreach" for w in info["where"].values()) and \
+            any(k == "UnusedToken" for k, _ in want)
+        if a[:2] != "OK":
+            n_bad += 1
+            ctx.violation({"what": "a printed grammar with precedence pseudo-tokens is not accepted: %s" % a[:300], "kind": kind,
+                           "text": text, "replay_cmd": "echo '%s' | .work/target/release/c10yp" % line})
+            continue
+        tr = G.parse_transcript(strip_bad(a))
+        got = [(w[0], (int(w[1]), int(w[2]))) for w in tr["warnings"]]
+        diffs = [x for x in G.oracle(text, exp, tr, PROD_SPAN_FIXED) if x[0] != "action-span"]
+        if got != want or diffs:
+            n_bad += 1
+            ctx.violation({"what": "the warnings of a grammar with precedence pseudo-tokens are not its unreachable rules + the tokens "
+                                   "that no reachable production uses as a symbol or names by %prec", "kind": kind, "text": text,
+                           "warnings": got, "expected": want, "pseudo_tokens": info, "ast_differences": [list(x) for x in diffs[:4]],
+                           "replay_cmd": "echo '%s' | .work/target/release/c10yp" % line})
+        if strip_bad(a) != m:
+            n_tie += 1
+            report_tie(ctx, kind, text, line, a, m)
+    ctx.oblige(n_bad == 0, "warnings = unreachable rules + tokens unused by every reachable production (symbols and %prec)")
+    ctx.oblige(n_sep >= 50 and n_unreach >= 20, "pseudo-token grammars separating the repaired from the pinned unused_symbols, "
+                                                 "and ones whose pseudo-token is named by unreachable productions only, were generated")
+    ctx.coverage["prec_pseudo_token_cases"] = {"cases": len(cases), "named_by_reachable_%prec": n_reach,
+                                               "reported_because_only_unreachable_%prec": n_unreach,
+                                               "warnings_differ_between_repaired_and_pinned_walk": n_sep}
     return n_tie
 
 
@@ -362,6 +422,10 @@ def run_part(ctx, tag="C10b"):
     # ---------------------------------------------------------------- (i') several unknown %epp declarations
     n_epp_bad = run_unknown_epp(ctx, rng, exe, mexe, clean)
     n_tie_bad += n_epp_bad
+
+    # ---------------------------------------------------------------- (i'') precedence pseudo-tokens and the warnings
+    import random
+    n_tie_bad += run_prec_pseudo(ctx, random.Random(ctx.seed * 7919 + 1004), exe, mexe)     # own stream: the other families keep their cases
 
     # ---------------------------------------------------------------- (ii) mutated sources
     muts = []
